@@ -298,11 +298,13 @@ def main():
     ap.add_argument("--limit", type=int, default=0)
     ap.add_argument("--out", default="/tmp/mutation_survey.json")
     ap.add_argument("--no-suite", action="store_true")
+    ap.add_argument("--repo", default="/repo", help="tree to survey (a frozen copy lets /repo move on meanwhile)")
     ap.add_argument("--varswap", action="store_true", help="variable-swap operator only (a variable replaced by another of the same type)")
     ap.add_argument("--extra", action="store_true", help="second-generation operators only (constants, copies, attribute swaps, dropped arguments, dropped return values)")
     a = ap.parse_args()
-    global EXTRA
+    global EXTRA, REPO
     EXTRA = a.extra
+    REPO = a.repo
     muts = []
     for dp, dn, fn in os.walk(os.path.join(REPO, "tawazi")):
         for f in sorted(fn):
